@@ -21,7 +21,11 @@ rule("C16.c", "ScaledAsset: the scale column of a block of bound rows is the bas
 rule("C16.g", "an identity block over a subset of the variables is not stacked under a matrix over all variables", floor=1)
 
 
-@analysis("scaled", ["C16.a", "C16.b", "C16.c", "C16.g"])
+rule("C16.m", "a wrapper that extends the variable names of what it wraps treats them as text only after converting them: set-ups write "
+              "numbers into the 'var_name' column too (the orders of an order book are numbered)", floor=1)
+
+
+@analysis("scaled", ["C16.a", "C16.b", "C16.c", "C16.g", "C16.m"])
 def run(ctx):
     p = ctx.p
     fn = p.cls("ScaledAsset").methods.get("setup_optim_problem")
@@ -143,3 +147,59 @@ def run(ctx):
                "columns are all variables of the base asset: for a base asset with internal variables (MIP storage, plant with minimum "
                "load) the widths differ (ValueError: incompatible column dimensions) - and capacities multiplying binaries are not scaled "
                "at all" % au.U(eye.args[0]), node=eye, key="identity block over the dispatch variables stacked under op.A")
+
+    # ================================================================= C16.m variable names are not always text
+    def is_varname_col(e):
+        return isinstance(e, ast.Subscript) and au.const_str(e.slice) == "var_name"
+    numeric_writers = []
+    for fn in p.all_functions():
+        if fn.cls is None or not p.is_subclass(fn.cls, "Asset"):
+            continue
+        loopvars = set()
+        for lp in au.walk_stmts(fn.body):
+            if isinstance(lp, ast.For) and isinstance(lp.iter, ast.Call) and au.method_name(lp.iter) in ("range", "enumerate"):
+                t = lp.target
+                if isinstance(t, ast.Name):
+                    loopvars.add(t.id)
+                elif isinstance(t, ast.Tuple) and t.elts and isinstance(t.elts[0], ast.Name) and au.method_name(lp.iter) == "enumerate":
+                    loopvars.add(t.elts[0].id)
+        for st in au.walk_stmts(fn.body):
+            if isinstance(st, ast.Assign) and len(st.targets) == 1 and is_varname_col(st.targets[0]):
+                v = st.value
+                if (isinstance(v, ast.Name) and v.id in loopvars) or (isinstance(v, ast.Constant) and isinstance(v.value, (int, float)) and not isinstance(v.value, bool)):
+                    numeric_writers.append((fn, st))
+    n_m = 0
+    for fn in p.all_functions():
+        if fn.cls is None or not p.is_subclass(fn.cls, "Asset"):
+            continue
+        for st in au.walk_stmts(fn.body):
+            for x in au.walk_own(st):
+                if not (isinstance(x, ast.BinOp) and isinstance(x.op, ast.Add)):
+                    continue
+                if isinstance(p.parent(x), ast.BinOp) and isinstance(p.parent(x).op, ast.Add) and p.parent(x).left is x:
+                    continue    # judge the whole chain once, at its top
+                leaves, stack = [], [x]
+                while stack:
+                    y = stack.pop()
+                    if isinstance(y, ast.BinOp) and isinstance(y.op, ast.Add):
+                        stack += [y.right, y.left]
+                    else:
+                        leaves.append(y)
+                if not any(au.const_str(l0) is not None for l0 in leaves):
+                    continue    # not a text concatenation
+                for l0 in leaves:
+                    r = ctx.resolve(fn, l0, st)
+                    conv = False
+                    while isinstance(r, ast.Call) and isinstance(r.func, ast.Attribute) and au.method_name(r) in ("astype", "map", "apply", "fillna", "where"):
+                        conv = conv or (au.method_name(r) in ("astype", "map", "apply") and r.args and au.U(r.args[0]) in ("str", "'str'", "object") and au.U(r.args[0]) != "object")
+                        r = ctx.resolve(fn, r.func.value, st)
+                    if is_varname_col(r):
+                        n_m += 1
+                        ok = conv or not numeric_writers
+                        ctx.ob("C16.m", fn, au.short(x, 70), ok,
+                               "the 'var_name' column is extended as text (%s), but %s writes numbers into it (%s): number + text raises a TypeError - an "
+                               "order book cannot be part of a structured asset, although the flat portfolio with the same assets can be optimised" % (
+                                   au.short(x, 50), numeric_writers[0][0].qualname if numeric_writers else "", au.short(numeric_writers[0][1], 40) if numeric_writers else ""),
+                               node=x, ok_detail="converted to text first" if conv else "no set-up writes numbers")
+    if n_m == 0:
+        ctx.ob("C16.m", "package", "text operations on variable names", None, "no wrapper extends the 'var_name' column")
